@@ -153,7 +153,8 @@ def facts(name, otarget, orig_out, got):
     asg = node if isinstance(node, Assignment) else node.ancestor(Assignment)
     if asg is not None and isinstance(asg.lhs, ArrayReference):
         lname = asg.lhs.symbol.name
-        reads = [r for r in asg.rhs.walk(ArrayReference)
+        from psyclone.psyir.nodes import Reference
+        reads = [r for r in asg.rhs.walk(Reference)
                  if r.symbol.name == lname]
         out["lhs_on_rhs"] = bool(reads)
         from psyclone.psyir.backend.fortran import FortranWriter
